@@ -141,7 +141,10 @@ func (w *ClientWorld) onComplete(r *creq) service.OnCompleteFunc {
 			r.Chain = ""
 			w.Issue(next, []string{"t"}, nil, fmt.Sprintf("chained-after-%d", r.Idx))
 		}
-		return nil
+		// an application that hands the error it was told about back to the library
+		// (refused filter, filter that was not subscribed locally): the library may log
+		// it, nothing else depends on it
+		return err
 	}
 }
 
